@@ -250,6 +250,9 @@ class Ctx(Acc):
         for k, f in known_keys.items():
             if self.violation_counts.get(k):
                 lines.append(f"KNOWN-FINDING: property={self.prop} {k} {f['what']} (observed {self.violation_counts[k]}x)")
+                first = next((v for v in self.violations if v["key"] == k), None)
+                if first:
+                    lines.append(f"    first observation this run: {first['what'][:600]}")
         replay_paths = []
         if unknown:
             os.makedirs(os.path.join(HOME, "replays"), exist_ok=True)
